@@ -24,3 +24,85 @@ Proof.
   intros x B. split; [apply rq_inside_iff|]. split; [apply lin_inside_iff|]. split; [apply quad_inside_iff | apply cub_inside_iff].
 Qed.
 Print Assumptions C09_tail_interval_closed.
+
+(* the bounded splines accept exactly the closed interval of the direction they are applied in *)
+Theorem C09_domain_is_closed_interval : forall x lo hi : R,
+  (rq_rejects Rops x x lo hi = true <-> x < lo \/ hi < x) /\ (lin_rejects Rops x x lo hi = true <-> x < lo \/ hi < x) /\
+  (quad_rejects Rops x x lo hi = true <-> x < lo \/ hi < x) /\ (cub_rejects Rops x x lo hi = true <-> x < lo \/ hi < x).
+Proof. exact rejects_iff. Qed.
+Print Assumptions C09_domain_is_closed_interval.
+
+From Coquelicot Require Import Coquelicot.
+From NF Require Import Proofs.SplineRQP.
+
+(* The rational-quadratic bin, with the formulas generated from the source: for every bin
+   (any left knot, width w > 0, height h > 0, end derivatives d0, d1 > 0) the map is strictly
+   increasing on the bin, sends its two ends to the two ends of the output bin (hence is
+   continuous across knots and pins the box end points), stays inside the output bin, and its
+   derivative at the two ends is d0 and d1 (C1 across knots). *)
+Theorem C09_rq_bin_increasing : forall xk w yk h d0 d1 : R, 0 < w -> 0 < h -> 0 < d0 -> 0 < d1 ->
+  forall a b, xk <= a -> a < b -> b <= xk + w -> fwd xk w yk h d0 d1 a < fwd xk w yk h d0 d1 b.
+Proof. exact fwd_increasing. Qed.
+Print Assumptions C09_rq_bin_increasing.
+
+Theorem C09_rq_bin_end_points : forall xk w yk h d0 d1 : R, 0 < w -> 0 < h -> 0 < d0 -> 0 < d1 ->
+  fwd xk w yk h d0 d1 xk = yk /\ fwd xk w yk h d0 d1 (xk + w) = yk + h.
+Proof. intros xk w yk h d0 d1 Hw Hh H0 H1. split; [apply fwd_left | apply fwd_right]; assumption. Qed.
+Print Assumptions C09_rq_bin_end_points.
+
+Theorem C09_rq_bin_range : forall xk w yk h d0 d1 : R, 0 < w -> 0 < h -> 0 < d0 -> 0 < d1 ->
+  forall x, xk <= x <= xk + w -> yk <= fwd xk w yk h d0 d1 x <= yk + h.
+Proof. exact fwd_range. Qed.
+Print Assumptions C09_rq_bin_range.
+
+Theorem C09_rq_bin_C1_at_knots : forall xk w yk h d0 d1 : R, 0 < w -> 0 < h -> 0 < d0 -> 0 < d1 ->
+  deriv xk w h d0 d1 xk = d0 /\ deriv xk w h d0 d1 (xk + w) = d1 /\
+  forall x, xk <= x <= xk + w -> is_derive (fwd xk w yk h d0 d1) x (deriv xk w h d0 d1 x) /\ 0 < deriv xk w h d0 d1 x.
+Proof.
+  intros xk w yk h d0 d1 Hw Hh H0 H1. split; [apply deriv_left; assumption|]. split; [apply deriv_right; assumption|].
+  intros x Hx. split; [apply fwd_derive | apply deriv_pos]; assumption.
+Qed.
+Print Assumptions C09_rq_bin_C1_at_knots.
+
+(* the bin is onto its output bin: every y in [yk, yk+h] has a pre-image in the bin *)
+Theorem C09_rq_bin_onto : forall xk w yk h d0 d1 : R, 0 < w -> 0 < h -> 0 < d0 -> 0 < d1 ->
+  forall y, yk <= y <= yk + h ->
+    xk <= inv xk w yk h d0 d1 y <= xk + w /\ fwd xk w yk h d0 d1 (inv xk w yk h d0 d1 y) = y.
+Proof.
+  intros xk w yk h d0 d1 Hw Hh H0 H1 y Hy. split; [apply inv_in_bin | apply fwd_inv]; assumption.
+Qed.
+Print Assumptions C09_rq_bin_onto.
+
+Example C09_bin_hypotheses_satisfiable : 0 < 1 / 2 /\ 0 < 1 / 3 /\ 0 < 1 /\ 0 < 2.
+Proof. repeat split; Lra.lra. Qed.
+
+From NF Require Import Proofs.SplineLQP.
+
+(* piecewise-linear bin (normalised coordinates, K bins, pdf value p > 0, left cdf value c):
+   increasing, maps the bin's ends to the cdf values at its ends *)
+Theorem C09_linear_bin : forall K k p c : R, 0 < K -> 0 < p ->
+  (forall a b, a < b -> lin_raw K k p c a < lin_raw K k p c b) /\
+  lin_raw K k p c (k / K) = c /\ lin_raw K k p c ((k + 1) / K) = c + p /\
+  (forall x, 0 <= lin_raw K k p c x <= 1 -> lin_fwd_outputs Rops x K k p c = lin_raw K k p c x).
+Proof.
+  intros K k p c HK Hp. split; [intros a b; apply lin_raw_increasing; assumption|].
+  destruct (lin_raw_ends K k p c HK) as [E1 E2]. split; [exact E1|]. split; [exact E2|].
+  intros x Hx. apply lin_fwd_outputs_eq. exact Hx.
+Qed.
+Print Assumptions C09_linear_bin.
+
+(* piecewise-quadratic bin (location l, width w > 0, heights hl, hr > 0): increasing on the bin, left end
+   maps to the left cdf value, right end to left cdf + trapezoid area = the next cdf value *)
+Theorem C09_quadratic_bin : forall l w c0 hl hr : R, 0 < w -> 0 < hl -> 0 < hr ->
+  (forall a b, l <= a -> a < b -> b <= l + w -> q_raw l w c0 hl hr a < q_raw l w c0 hl hr b) /\
+  q_raw l w c0 hl hr l = c0 /\ q_raw l w c0 hl hr (l + w) = c0 + (hl + hr) / 2 * w.
+Proof.
+  intros l w c0 hl hr Hw Hl Hr. split; [intros a b; apply q_raw_increasing; assumption|].
+  apply q_raw_ends. exact Hw.
+Qed.
+Print Assumptions C09_quadratic_bin.
+
+(* NOT PROVED here (labelled partial in MANIFEST/evidence): (i) the assembly of the bins into the
+   whole spline through the knot construction from unnormalised parameters and the bin search --
+   the knots' strict monotonicity from softmax/cumsum -- and (ii) monotonicity of the cubic (Steffen)
+   bin.  Both are covered by the correspondence and the search on the implementation only. *)
